@@ -60,7 +60,10 @@ def sop(ex, st, name, args, ret_sort, native):
     in_binder = getattr(st, "in_binder", 0)
     opaque = name.lower() in ex.c.opaque
     if not in_binder and not opaque and not getattr(ex, "force_uf", False):
-        return native()
+        nat = native()
+        f = uf(ex, name, *[a.sort() for a in args], ret_sort)
+        st.fact(f(*args) == nat)  # links the ground term with instances of quantified clauses (which use the symbol)
+        return nat
     f = uf(ex, name, *[a.sort() for a in args], ret_sort)
     t = f(*args)
     if not in_binder and not opaque:
@@ -326,7 +329,7 @@ def z3_replace_all(s, a, b):
 
 
 def _replace_all(s, a, b):
-    f = z3.Function("str.replace_all", S, S, S, S)
+    f = z3.Function("REPLACE_ALL", S, S, S, S)
     return f(s, a, b)
 
 
@@ -459,6 +462,16 @@ def bytes_of_list(ex, a: VList, st):
     if a.bytebuf is not None:
         # every element was appended as the code of a byte
         return VBytes(a.bytebuf)
+    arb = getattr(a, "arbitrary", None)
+    if arb is not None:
+        # list built by a comprehension: the range condition is proved of the arbitrary element in the body's state
+        i_, e_, sc_ = arb
+        allowed = any(cls in ex.c.raises or cls in ex.c.raises_iff for cls in exc_supers("ValueError"))
+        if not allowed:
+            ex.oblige(sc_, "safe", f"ValueError@L{getattr(ex, 'cur_line', 0) - ex.fn.lineno}:bytes() element in range(256) (comprehension element)", z3.And(e_.z >= 0, e_.z <= 255), getattr(ex, "cur_line", 0))
+        r = fresh("bytes", S)
+        st.fact(z3.Length(r) == a.n)
+        return VBytes(r)
     k = fresh("k", I)
     ex.raise_if(st, z3.Exists([k], z3.And(0 <= k, k < a.n, z3.Or(a.arr[k] < 0, a.arr[k] > 255))), "ValueError", "bytes() element not in range(256)")
     r = fresh("bytes", S)
@@ -627,6 +640,35 @@ def sf_alloc(ex, node, st):
     return VInt(st.alloc)
 
 
+def sf_matches(ex, node, st):
+    """matches(PATTERN, text): text is in L(PATTERN°) - the language of the real pattern constant, look-arounds erased."""
+    from . import regex2smt as R2
+
+    p = ex.eval(node.args[0], st)
+    t = ex.eval(node.args[1], st)
+    pz = z3.simplify(p.z)
+    if not z3.is_string_value(pz):
+        raise Unsupported("matches() needs a constant pattern")
+    lang, _ = R2.to_re(z3_to_bytes(pz))
+    return VBool(z3.InRe(t.z, lang))
+
+
+def sf_matches_group(ex, node, st):
+    """matches_group(PATTERN, g, text): text is in the language of capture group g of the real pattern constant."""
+    from . import regex2smt as R2
+
+    p = ex.eval(node.args[0], st)
+    g = int_const(ex.eval(node.args[1], st).z)
+    t = ex.eval(node.args[2], st)
+    _, groups = R2.to_re(z3_to_bytes(z3.simplify(p.z)))
+    return VBool(z3.InRe(t.z, groups[g]))
+
+
+def sf_unhexlify(ex, node, st):
+    a = ex.eval(node.args[0], st)
+    return VBytes(uf(ex, "UNHEX", S, S)(a.z))
+
+
 def sf_xor(ex, node, st):
     a = ex.eval(node.args[0], st)
     b = ex.eval(node.args[1], st)
@@ -653,6 +695,9 @@ SPEC_FORMS = {
     "lo": sf_lo,
     "hi": sf_hi,
     "alloc": sf_alloc,
+    "matches": sf_matches,
+    "matches_group": sf_matches_group,
+    "unhexlify": sf_unhexlify,
 }
 
 
